@@ -336,6 +336,14 @@ func WriteTarArchive(st storage.Storer, w io.Writer, tree *object.Tree, commitHa
 func WriteZipArchive(st storage.Storer, w io.Writer, tree *object.Tree, commitHash *plumbing.Hash, prefix string, pathFilter []string, modTime time.Time) error {
 	zw := zip.NewWriter(w)
 
+	// Like the tar writer, and like git archive, the prefix directory and
+	// every tree and submodule get a directory entry of their own.
+	if prefix != "" && strings.HasSuffix(prefix, "/") {
+		if _, err := zw.CreateHeader(zipDirHeader(prefix, modTime)); err != nil {
+			return err
+		}
+	}
+
 	walker := object.NewTreeWalker(tree, true, nil)
 	defer walker.Close()
 
@@ -355,6 +363,9 @@ func WriteZipArchive(st storage.Storer, w io.Writer, tree *object.Tree, commitHa
 		matchedAny = true
 
 		if entry.Mode == filemode.Dir || entry.Mode == filemode.Submodule {
+			if _, err := zw.CreateHeader(zipDirHeader(prefix+name+"/", modTime)); err != nil {
+				return err
+			}
 			continue
 		}
 
@@ -414,6 +425,17 @@ func WriteZipArchive(st storage.Storer, w io.Writer, tree *object.Tree, commitHa
 	}
 
 	return zw.Close()
+}
+
+// zipDirHeader describes a directory entry the way git archive writes it:
+// stored, empty, with the MS-DOS directory attribute.
+func zipDirHeader(name string, modTime time.Time) *zip.FileHeader {
+	return &zip.FileHeader{
+		Name:          name,
+		Method:        zip.Store,
+		Modified:      modTime,
+		ExternalAttrs: 0x10,
+	}
 }
 
 // MatchesPathFilter checks if a name matches any of the path filters.
